@@ -17,7 +17,10 @@ RULE = ("K: (a) _reversible_slice_boundaries for every T<=Tb, 1<=k<=max(T,1) com
         "at every step; every quick run contains a plane source (injects into H) with a pulse profile and a late-start OnOffSwitch "
         "(on after ~40 % of the run) and an electric dipole with a late-start switch, and rotates with the seed through switch "
         "kinds {interval 2, fixed on-steps not starting at 0, late start + interval} x H-injecting source kinds {plane, magnetic "
-        "dipole}; thorough: the full grid switch kind x {plane, magnetic dipole, electric dipole}), with the real backward/forward_single_args_wrapper traced and their schedule compared with the model. "
+        "dipole}; thorough: the full grid switch kind x {plane, magnetic dipole, electric dipole}); every quick run contains one scene with a "
+        "lossless FULL 9-component symmetric positive definite inverse-permittivity tensor (all off-diagonals non-zero, random per "
+        "cell) and the gradient taken w.r.t. the 9-component array; thorough/search rotate which off-diagonal pairs are non-zero "
+        "(full, xy, xz, yz) and add full inverse-permeability tensors, with the real backward/forward_single_args_wrapper traced and their schedule compared with the model. "
         "Independent oracles: toy gradient vs plain autodiff through a Python loop (dlt=0), reversible vs checkpointed gradient.")
 
 TOL = 1e-9
@@ -305,6 +308,16 @@ def build_scene(sp):
         cons += [slab.same_size(vol, axes=(0, 1)), slab.place_at_center(vol, axes=(0, 1)),
                  slab.set_grid_coordinates(axes=(2,), sides=("-",), coordinates=(min(zs + 1, n[2] - 2),))]
         objects.append(slab)
+    if sp.get("aniso") or sp.get("aniso_mu"):
+        # an anisotropic block makes placement allocate the full 9-component tensor tier; the values are overwritten by
+        # random symmetric positive definite tensors in scene_eval
+        kw = {"permittivity": (2.0, 0.2, 0.1, 0.2, 2.5, 0.15, 0.1, 0.15, 3.0) if sp.get("aniso") else 1.5}
+        if sp.get("aniso_mu"):
+            kw["permeability"] = (1.5, 0.1, 0.05, 0.1, 2.0, 0.1, 0.05, 0.1, 1.8)
+        blk = fdtdx.UniformMaterialObject(name="aniso_block", partial_grid_shape=(2, 2, 2), material=fdtdx.Material(**kw))
+        cons.append(blk.set_grid_coordinates(axes=(0, 1, 2), sides=("-", "-", "-"),
+                                             coordinates=(n[0] // 2 - 1, n[1] // 2 - 1, min(zs + 1, n[2] - 2))))
+        objects.append(blk)
     if sp.get("magnetic"):
         mat = fdtdx.Material(permittivity=1.5, permeability=2.0)
         blk = fdtdx.UniformMaterialObject(partial_grid_shape=(2, 2, 2), material=mat)
@@ -346,17 +359,42 @@ def traced_real():
     return dict(backward=backward, forward_single_args_wrapper=forward_single_args_wrapper)
 
 
+FINDING_ANISO_PML = "full-inv-permittivity-tensor+pml"
+ANISO_KINDS = ("full", "xy", "xz", "yz")
+_PAIRS = {"full": ((0, 1), (0, 2), (1, 2)), "xy": ((0, 1),), "xz": ((0, 2),), "yz": ((1, 2),)}
+
+
+def random_material(r, shape, aniso, what):
+    """random lossless inverse material array: values in (1/3, 1) for 1/3-component arrays; for the 9-component tier a
+    symmetric, strictly diagonally dominant (hence positive definite) tensor per cell, diagonal in (0.4, 0.8), the selected
+    off-diagonal pairs in +-(0.03, 0.09) (non-zero everywhere), the others exactly 0"""
+    if shape[0] != 9:
+        if aniso:
+            raise RuntimeError(f"{what}: full tensor requested but placement produced shape {shape}")
+        return 1.0 / (1.0 + 2.0 * r.random(shape))
+    out = np.zeros((3, 3) + tuple(shape[1:]))
+    for a in range(3):
+        out[a, a] = r.uniform(0.4, 0.8, shape[1:])
+    for a, b in _PAIRS[aniso or "full"]:
+        v = r.uniform(0.03, 0.09, shape[1:]) * r.choice([-1.0, 1.0], shape[1:])
+        out[a, b] = v
+        out[b, a] = v
+    return out.reshape((9,) + tuple(shape[1:]))
+
+
 def scene_eval(sp):
     """returns list of (k, relative difference per parameter array, log) and the reference gradient scale"""
     j = J()
     jax, jnp, fdtdx = j["jax"], j["jnp"], j["fdtdx"]
     oc, arrays, config = build_scene(sp)
     r = np.random.default_rng(sp["seed"])
-    inv_eps = jnp.asarray(1.0 / (1.0 + 2.0 * r.random(arrays.inv_permittivities.shape)))
+    inv_eps = jnp.asarray(random_material(r, arrays.inv_permittivities.shape, sp.get("aniso"), "inv_permittivities"))
     inv_mu = arrays.inv_permeabilities
     mu_is_array = hasattr(inv_mu, "shape") and getattr(inv_mu, "ndim", 0) >= 3
+    if sp.get("aniso_mu") and not (mu_is_array and inv_mu.shape[0] == 9):
+        raise RuntimeError(f"aniso_mu requested but inv_permeabilities has shape {getattr(inv_mu, 'shape', None)}")
     if mu_is_array:
-        inv_mu = jnp.asarray(1.0 / (1.0 + 2.0 * r.random(inv_mu.shape)))
+        inv_mu = jnp.asarray(random_material(r, inv_mu.shape, sp.get("aniso_mu"), "inv_permeabilities"))
     else:
         inv_mu = jnp.asarray(inv_mu, dtype=jnp.float64)
     w = jnp.asarray(r.standard_normal(arrays.detector_states["det"]["fields"].shape))
@@ -411,6 +449,7 @@ def scene_property_fails(sp, ev=None):
 
 def quick_scenes(seed):
     """four fixed shapes; [1] and [2] ALWAYS carry a late-start switch (H-injecting plane source with a pulse, electric dipole);
+    [2] ALWAYS has a full 9-component symmetric positive definite inverse-permittivity tensor with all off-diagonals non-zero;
     [3] rotates with the seed through switch kinds x H-injecting source kinds"""
     rot_switch = ("interval", "fixed", "start_interval")[seed % 3]
     rot_source = ("plane_gauss", "dipole_mag_gauss")[(seed // 3) % 2]
@@ -419,7 +458,7 @@ def quick_scenes(seed):
         {"kind": "scene", "T": 10, "n": [4, 4, 10], "bounds": "pml_z", "source": "plane_custom", "ks": [2], "seed": seed + 1,
          "src_z": 3, "switch": "start"},
         {"kind": "scene", "T": 8, "n": [4, 4, 6], "bounds": "pec_pmc", "source": "dipole_gauss", "ks": [1], "seed": seed + 2,
-         "magnetic": True, "switch": "start"},
+         "switch": "start", "aniso": "full"},
         {"kind": "scene", "T": 6, "n": [4, 4, 6], "bounds": "periodic", "source": rot_source, "ks": [6], "seed": seed + 3,
          "lossy": 100.0, "switch": rot_switch},
     ]
@@ -434,7 +473,26 @@ def thorough_scenes(seed):
         {"kind": "scene", "T": 1, "n": [3, 3, 5], "bounds": "periodic", "source": "plane_custom", "ks": [1], "seed": seed + 6},
         {"kind": "scene", "T": 10, "n": [4, 4, 10], "bounds": "pml_z", "source": "plane_custom", "ks": [2], "seed": seed + 7,
          "src_z": 3},
-    ] + switch_scenes(seed + 8)
+        {"kind": "scene", "T": 8, "n": [4, 4, 6], "bounds": "pec_pmc", "source": "dipole_gauss", "ks": [1], "seed": seed + 30,
+         "magnetic": True, "switch": "start"},
+        # KNOWN FINDING (props/C04.findings.json): full inverse-permittivity tensor + PML -> interior reconstruction is inexact
+        {"kind": "scene", "T": 8, "n": [3, 3, 11], "bounds": "pml_z", "source": "dipole_gauss", "ks": [1], "seed": 5, "src_z": 5,
+         "width": 40, "aniso": "xy", "finding": FINDING_ANISO_PML},
+        {"kind": "scene", "T": 8, "n": [3, 3, 11], "bounds": "pml_z", "source": "dipole_mag_gauss", "ks": [2], "seed": 6, "src_z": 5,
+         "width": 40, "aniso_mu": "full"},
+    ] + switch_scenes(seed + 8) + aniso_scenes(seed + 40)
+
+
+def aniso_scenes(seed, T=7):
+    """full inverse-permittivity / inverse-permeability tensors; which off-diagonal pairs are non-zero rotates"""
+    out = []
+    for i, kind in enumerate(ANISO_KINDS):
+        out.append({"kind": "scene", "T": T, "n": [4, 4, 5], "bounds": ("periodic", "pec_pmc")[i % 2],
+                    "source": ("dipole_gauss", "dipole_mag_gauss")[i % 2], "ks": [1 + i % 3], "seed": seed + i, "aniso": kind,
+                    "aniso_mu": ANISO_KINDS[(i + 1) % 4] if i % 2 == 0 else None, "width": 40})
+    out.append({"kind": "scene", "T": T, "n": [4, 4, 5], "bounds": "periodic", "source": "dipole_mag_gauss", "ks": [2],
+                "seed": seed + 9, "aniso_mu": "full", "width": 40})
+    return out
 
 
 def switch_scenes(seed, T=7):
@@ -466,6 +524,12 @@ def random_scene(rng, i):
         sp["lossy"] = lossy
     if rng.chance(0.3):
         sp["magnetic"] = True
+    # full permittivity tensors are only combined with PML in the one scene tagged with the known finding (thorough_scenes)
+    if sp["source"].startswith("dipole") and not lossy and not has_pml_z and rng.chance(0.7):
+        sp["aniso"] = ANISO_KINDS[i % 4]
+        sp.pop("magnetic", None)
+        if rng.chance(0.5):
+            sp["aniso_mu"] = ANISO_KINDS[(i + 2) % 4]
     if source != "plane_cw" and rng.chance(0.6):
         sp["switch"] = SWITCH_KINDS[i % len(SWITCH_KINDS)]
         if source == "dipole_gauss" and rng.chance(0.5):
@@ -494,10 +558,10 @@ def run_scene(ctx, sp):
     pml = sp["bounds"].startswith("pml")
     for k, de, dm, log in res:
         ctx.case(sample={"scene": sp, "k": k, "rel_diff_eps": de, "rel_diff_mu": dm, "grad_scale": sc_e} if len(ctx.samples) < 5 else None,
-                 nontrivial=("scene", sp["bounds"], sp["source"], k > 1, bool(sp.get("lossy")), bool(sp.get("magnetic")), sp.get("switch"))
+                 nontrivial=("scene", sp["bounds"], sp["source"], k > 1, bool(sp.get("lossy")), bool(sp.get("magnetic")), sp.get("switch"), sp.get("aniso"), sp.get("aniso_mu"))
                  if sc_e > 0 else None, zero_gradient=not sc_e > 0,
                  op="scene", bounds=sp["bounds"], source=sp["source"], slices=min(k, 4), lossy=bool(sp.get("lossy")),
-                 switch=sp.get("switch", "always_on"))
+                 switch=sp.get("switch", "always_on"), eps_tensor=sp.get("aniso") or "iso/diag", mu_tensor=sp.get("aniso_mu") or "iso/diag")
         ctx.expect_equal("real-schedule", {**sp, "ks": [k]}, fmt_log(log), expected_sched(ctx, sp["T"], k))
         ctx.impl_property_evals += 1
     if not finite:
@@ -505,7 +569,7 @@ def run_scene(ctx, sp):
         return
     d = scene_property_fails(sp, ev)
     if d:
-        ctx.violation(sp, d)
+        ctx.violation(sp, d, signature=sp.get("finding"))
 
 
 def run(ctx):
@@ -570,7 +634,7 @@ def run(ctx):
     # (c) the property on the real solver
     scenes = quick_scenes(ctx.rng.randint(0, 10 ** 6))
     if ctx.thorough:
-        scenes += thorough_scenes(7) + [random_scene(ctx.rng, i) for i in range(18)]
+        scenes += thorough_scenes(7) + [random_scene(ctx.rng, i) for i in range(10)]
     for i, sp in enumerate(scenes):
         run_scene(ctx, sp)
         if i % 4 == 3:
@@ -603,7 +667,7 @@ def search(ctx, hints):
                 return
     cands = [{"kind": "scene", "T": T, "n": [3, 3, 5], "bounds": "periodic", "source": s, "ks": ks, "seed": 5}
              for T in (1, 2, 4) for s in ("plane_custom", "plane_gauss") for ks in ([1], [2] if T >= 2 else [1])]
-    cands += switch_scenes(21, T=5) + quick_scenes(11) + [random_scene(r, i) for i in range(ctx.scale(12, 60))]
+    cands += switch_scenes(21, T=5) + aniso_scenes(31, T=5) + quick_scenes(11) + [random_scene(r, i) for i in range(ctx.scale(12, 60))]
     for sp in cands:
         ctx.impl_property_evals += 1
         release_jit()
